@@ -23,6 +23,6 @@ def run(rep, tier, seed):
         a += 1; ka.add((case['op'], case['kinds'], case['D'], case['P'], str(case['shape'])))
         if fail: rep.violation('operator %s %s' % (case['op'], case['kinds']), 'alias', '%s: %s' % (case, fail), {'kind': 'alias', 'case': case, 'failure': fail})
     rep.add_bounded('x op x / x op= x / x op= view(x)', a, len(ka), 'all binary and in-place operators with both operands the same object or the right one a view of the left, vs independent copies', [{'op': '*=', 'kinds': 'x op= x (same object)'}], 'D<=3,P<=2')
-    rep.assume(*[ASSUME[k_] for k_ in ('A3', 'A4', 'A6', 'A8', 'A9', 'A11')])
+    rep.assume(*[ASSUME[k_] for k_ in ('A3', 'A4', 'A6', 'A8', 'A8b', 'A9', 'A11')])
     rep.extra['explanation'] = 'proved: exact frames of the kernels under contract for every aliasing configuration used at a call site; bounded: the public operation layer and the tracer'
     return rc
